@@ -101,3 +101,19 @@ Definition qfact (k : nat) : Q := inject_Z (Z.of_nat (fact k)).
 Definition ti_row_ok (r : list Q * nat) : bool :=
   forallb (fun k => Qeq_bool (nth k (fst r) 0 * qfact k) 1) (seq 0 (S (snd r))).
 Definition ti_ok (t : tableau) : bool := forallb ti_row_ok (combine (ti_coeff t) (t_order t)).
+
+(* ---- link between the two halves of the model: the k-th coefficient of the constant-coefficient
+   expansion (the table recursion of runge_kutta_ti_coefficient) is the elementary weight of the
+   tall tree with k vertices, b . A^(k-1) . 1 -- for every power up to the stage number, i.e. also
+   beyond the advertised order, where the coefficient is no longer 1/k!                         *)
+Fixpoint tall (k : nat) : bt :=
+  match k with
+  | O => Tau
+  | S k' => match k' with O => Tau | S _ => Gr Tau (tall k') end
+  end.
+Definition ti_tall_row_ok (a : list (list Q)) (ns : nat) (p : list Q * list Q) : bool :=
+  Nat.eqb (length (snd p)) (S ns) &&
+  forallb (fun k => Qeq_bool (nth k (snd p) 0) (dotq (fst p) (Phi a (tall k)))) (seq 1 ns).
+Definition ti_tall_ok (t : tableau) : bool :=
+  Nat.eqb (length (ti_coeff t)) (length (t_b t)) &&
+  forallb (ti_tall_row_ok (t_a t) (t_stage t)) (combine (t_b t) (ti_coeff t)).
